@@ -81,8 +81,10 @@ func (c *Conn) CloseRead(ctx context.Context) context.Context {
 		defer cancel()
 		defer c.close()
 		_, _, err := c.Reader(ctx)
-		if err == nil {
-			c.Close(StatusPolicyViolation, "unexpected data message")
+		if err == nil && c.casClosing() {
+			// Not c.Close: it waits for this very goroutine to exit and would only
+			// give up after its 15 s timeout. The deferred close ends the connection.
+			c.closeHandshake(StatusPolicyViolation, "unexpected data message")
 		}
 	}()
 	return ctx
